@@ -544,23 +544,37 @@ def dispatch (op : String) (a : List Int) (o : Option Obs) : String :=
   | "whiten" => opWhiten false a o
   | "zca" => opWhiten true a o
   | "pca" => opPca a o
+  | "pcat" => opPca a o        -- same result through `PCA::train`
+  | "pcac" => opPca a o        -- same result through the constructor `PCA(data, whitening)`
   | "lda" => opLda false a o
   | "wlda" => opLda true a o
   | "fisher" => opFisher a o
   | _ => "bad-op"
 
-def step (line : String) : String :=
-  let parts := line.splitOn "||"
-  let toks := ((parts.headD "").trimAscii.toString.splitOn " ").filter (· ≠ "")
-  let obs : Option Obs := match parts with
-    | [_, o] => some (parseObs ((o.trimAscii.toString.splitOn " ").filter (· ≠ "")))
-    | _ => none
-  match toks with
+def toks (s : String) : List String := (s.trimAscii.toString.splitOn " ").filter (· ≠ "")
+
+/-- one op with the observation of the real trainer (or none: print the model's values) -/
+def stepOne (op : String) (obs : Option String) : String :=
+  match toks op with
   | [] => ""
-  | op :: args =>
+  | name :: args =>
     match args.mapM String.toInt? with
     | none => "bad-op"
-    | some a => dispatch op a obs
+    | some a => dispatch name a (obs.map fun o => parseObs (toks o))
+
+/-- A line is one op or a HISTORY `op ; op ; …` whose steps the harness executed one after the other on the same
+trainer and model objects (observations separated by `;;`).  The trainers are specified as functions of the data
+and the configuration of the call alone (`Props/C15.lean`, section "Objects used more than once"), so every step
+is judged against the model of that step alone: a step whose result depends on the earlier steps FAILs. -/
+def step (line : String) : String :=
+  let parts := line.splitOn "||"
+  let ops := ((parts.headD "").splitOn ";").filter fun s => ¬ (toks s).isEmpty
+  match parts with
+  | [_, o] =>
+    let obs := o.splitOn ";;"
+    if ops.length ≠ obs.length then s!"FAIL history of {ops.length} steps with {obs.length} observations"
+    else " ;; ".intercalate ((ops.zip obs).map fun (op, ob) => stepOne op (some ob))
+  | _ => " ;; ".intercalate (ops.map fun op => stepOne op none)
 
 partial def loop (h : IO.FS.Stream) (out : IO.FS.Stream) : IO Unit := do
   let line ← h.getLine
